@@ -23,6 +23,12 @@ def budget_stress_specs(ctx):
             if rng.random() < 0.2:
                 sp["options"]["max_iter"] = rng.choice([1, 2, 3])
             specs.append(sp)
+    # one-dimensional runs under specified noise: the poll steps back onto already logged points, whose repeated observations are merged
+    # into the existing record - every one of them is a target call and has to be counted
+    for _ in range(4 if ctx.quick else 20):
+        sp = gen.make_spec(rng, D=1, geom=rng.choice(["box", "tight"]), mode="he", cons=None, opt_loc="inside", target=rng.choice(["quad", "abs"]))
+        sp["options"] = {"n_search": 32, "max_fun_evals": rng.choice([70, 90]), "noise_final_samples": rng.choice([0, 3])}
+        specs.append(sp)
     # max_iter binding (budget ample), with the usual and with small search_n_try (search and poll in the same loop pass)
     for mi in ((1, 2, 4) if ctx.quick else (1, 2, 3, 4, 6, 9)):
         for nt in (None, 1, 0):
